@@ -630,8 +630,9 @@ func c15WFx(d *c15Dump, store map[int]*c15Spec, checkMinSum bool, exempt map[int
 
 // The webhook's handlers convert *unstructured.Unstructured (also inside a tombstone) with client-go's scheme.Scheme.
 // koord-manager registers the ElasticQuota type only in its own options.Scheme, so in the pinned tree that conversion
-// fails and such events are dropped (reported, see TestVerifC15Tombstone); the harness registers the type so that the
-// path the authors wrote is exercised.  VERIF_C15_TOMBSTONE=prod leaves the scheme as koord-manager has it.
+// fails and such events are dropped — harmless in production, where the informer is typed and never yields them; the
+// harness registers the type so that the path the authors wrote is exercised.  VERIF_C15_TOMBSTONE=prod leaves the scheme
+// as koord-manager has it (unstructured representations are then not generated).
 var c15SchemeRegistered = func() bool {
 	if os.Getenv("VERIF_C15_TOMBSTONE") == "prod" {
 		return false
@@ -1421,7 +1422,7 @@ func c15History(h *vHarness, r *vRand, deep bool) {
 					shape = 1
 				}
 				if kind == "del" && r.Chance(1, 3) {
-					shape = 2
+					shape = r.Range(2, 3) // tombstone by value holding the unstructured / the typed object
 				}
 				h.Tag(fmt.Sprintf("event:%s:shape%d", kind, shape))
 				panicked = c15Deliver(h, qt, kind, evOld, evObj, shape)
@@ -2299,8 +2300,8 @@ func TestVerifC15Replicas(t *testing.T) {
 					if r.Chance(1, 6) {
 						shape = 1
 					}
-					if kind == "del" && r.Chance(1, 4) {
-						shape = 2
+					if kind == "del" && r.Chance(1, 3) {
+						shape = r.Range(2, 3) // tombstone by value holding the unstructured / the typed object (typed informer)
 					}
 					h.Tag(fmt.Sprintf("event:%s:shape%d", kind, shape))
 					if reps[i].event(h, kind, evOld, evObj, shape) {
@@ -2390,21 +2391,22 @@ func TestVerifC15Replicas(t *testing.T) {
 		"probe the other replica with the request a stale replica would wrongly admit; non-trivial = >=3 admitted requests incl. >=1 update that kept the generation")
 }
 
-// ---- exhibit: a delete that arrives as a tombstone is dropped (koord-manager's scheme wiring) ----
+// ---- a delete that arrives as a tombstone (found by this stream as a gated exhibit, repaired by fc155e0; on by default) ----
 //
-// VERIF_C15_TOMBSTONE=prod only (suspected defect, reported; not modelled).  toElasticQuota accepts a
-// cache.DeletedFinalStateUnknown only when it holds an *unstructured.Unstructured, and converts unstructured objects with
-// client-go's scheme.Scheme, where koord-manager never registers the ElasticQuota type; the informer NewQuotaInformer asks
-// for is typed.  So the tombstone of a delete the replica missed (watch re-list) is ignored in either form and the
-// replica keeps the quota: the create of a quota with the same name / one of its namespaces is refused for good.
+// NewQuotaInformer asks for a TYPED informer, so the tombstone of a delete a replica missed (watch re-list) holds the typed
+// object.  Before fc155e0 toElasticQuota accepted a cache.DeletedFinalStateUnknown only when it held an
+// *unstructured.Unstructured: the replica kept the quota, ADMITTED children under the vanished parent and refused its
+// re-create.  Case 0: typed object inside the tombstone (always).  Case 1: unstructured object inside; it is converted with
+// client-go's scheme.Scheme, where koord-manager does not register the ElasticQuota type, so it only runs when the harness
+// registered the type (not with VERIF_C15_TOMBSTONE=prod; a typed informer never yields this form).
 func TestVerifC15Tombstone(t *testing.T) {
 	h := vOpen("C15")
 	if h == nil {
 		t.Skip("VERIF_OUT not set")
 	}
 	n := 2
-	if c15SchemeRegistered {
-		n = 0
+	if !c15SchemeRegistered {
+		n = 1
 	}
 	for idx := 0; idx < n; idx++ {
 		if h.Begin(idx) == nil {
@@ -2433,12 +2435,13 @@ func TestVerifC15Tombstone(t *testing.T) {
 		e4 := b.qt.ValidAddQuota(c15Object(sp))
 		h.Obs("admit %d %d child-under-deleted-parent-on-b %d recreate-on-b %d", vB(e1 == nil), vB(e2 == nil), vB(e3 == nil), vB(e4 == nil))
 		if e1 == nil && e2 == nil && e3 == nil {
-			h.Fail("C15:tombstone-dropped", "quota 3 deleted through replica a, tombstone (shape %d) delivered to replica b; b still records it: it ADMITS quota 4 with parent 3 (parent does not exist) and refuses the re-create of 3: %v", shape, e4)
+			h.Fail("C15:parent-missing:tombstone-dropped", "quota 3 deleted through replica a, tombstone (shape %d) delivered to replica b; b still records it: it ADMITS quota 4 with parent 3 (parent does not exist) and refuses the re-create of 3: %v", shape, e4)
 		}
 		h.Nontrivial()
 		h.End()
 	}
-	h.Close("tombstone exhibit (VERIF_C15_TOMBSTONE=prod only): delete missed by a replica and delivered as DeletedFinalStateUnknown holding the typed / the unstructured object")
+	h.Close("tombstone stream: parent deleted through replica a, the delete reaches replica b as DeletedFinalStateUnknown (by value) holding the typed / the unstructured object; " +
+		"b must then refuse a child under the deleted parent")
 }
 
 // ---- exhaustive small-scope stream for the informer glue (thorough tier) ----
